@@ -348,4 +348,17 @@ CHECKS = {
                      "last record of a request as its time span)", "time zone UTC"],
         technique="model-based property-based testing (destination buckets vs re-aggregation of the base bucket)",
     ),
+    "C15": dict(
+        test="TestC15", level="exploration", shards=16, cmds=["mkinfo"],
+        tiers=dict(quick=dict(checks=12, timeout=600), thorough=dict(checks=400, timeout=3000)),
+        rule="rapid DataService.Create requests: 1-1100 columns, names of 0-80 bytes (ASCII, multi-byte, spaces, empty), "
+             "all wire types, timeframes 1Min-1D, both record types, class wide-1D (61-80 U16 columns whose Jan-1 record "
+             "would reach back into the header), followed by 0-3 writes incl. the first interval of the year and the "
+             "previous year; oracle: the create is rejected (only when the schema cannot be stored: name > 32 bytes or "
+             "empty, > 1024 columns), or a FRESH server process reports exactly the created names, types, timeframe and "
+             "record type (GetInfo), accepts a write with that schema and rejects one with another column name; "
+             "non-trivial = name > 32 bytes, multi-byte name, > 256 columns, or wide-1D with a Jan-1 write",
+        assumptions=["a log.Fatal or panic of the fresh process is a violation"],
+        technique="property-based testing with a fresh-process restart, round-trip oracle",
+    ),
 }
